@@ -1,11 +1,11 @@
 (* C17/Run.v — S-expression front end, extracted to OCaml.
    requests
-     (trace <flush> <use_fsync> <bufsize> (dirs (name)...) (sets ((name) (bytes)) ...))
-        -> ((ev ...) ...) one event list per set; ev = (mkdir (name)) | (open (name)) | (write (name) len) | (fsync (name)) | (close (name))
+     (trace <flush> <use_fsync> <sync_dirs> <bufsize> (sets ((name) (bytes)) ...))
+        -> ((ev ...) ...) one event list per set; ev = (mkdir (name)) | (open (name)) | (write (name) len) | (fsync (name)) | (close (name)) | (fsyncdir (name))
      (check <journalled> (keys (name)...) (sets ((name) (bytes) (ev...)) ...))   ev with (write (name) (bytes))
         -> 0 | 1                                                 the verified checker on a recorded trace
      (cands <journalled> (name) (evs ev...))                   -> ((none) | (some (bytes))) ...  crash candidates of one key after the events
-     (modelcheck <journalled> <flush> <use_fsync> <bufsize> (keys ...) (sets ((name) (bytes)) ...)) -> 0 | 1 *)
+     (modelcheck <journalled> <flush> <use_fsync> <sync_dirs> <bufsize> (keys ...) (sets ((name) (bytes)) ...)) -> 0 | 1 *)
 From Coq Require Import ZArith List String.
 From KB Require Import Sx.
 From C17 Require Import Generated Model.
@@ -34,6 +34,7 @@ Definition sx_ev (e : ev) : sx :=
   | Write n d => SL [sx_w "write"; sx_zs n; SZ (zlen d)]
   | Fsync n => SL [sx_w "fsync"; sx_zs n]
   | Close n => SL [sx_w "close"; sx_zs n]
+  | FsyncDir p => SL [sx_w "fsyncdir"; sx_zs p]
   end.
 
 Definition ev_of_sx (x : sx) : option ev :=
@@ -41,7 +42,8 @@ Definition ev_of_sx (x : sx) : option ev :=
   | SL [SS t; SL n] =>
       match sx_get_zs n with
       | Some n' => if is_tag "mkdir" t then Some (Mkdir n') else if is_tag "open" t then Some (Open n')
-                   else if is_tag "fsync" t then Some (Fsync n') else if is_tag "close" t then Some (Close n') else None
+                   else if is_tag "fsync" t then Some (Fsync n') else if is_tag "close" t then Some (Close n')
+                   else if is_tag "fsyncdir" t then Some (FsyncDir n') else None
       | None => None
       end
   | SL [SS t; SL n; SL d] =>
@@ -73,11 +75,11 @@ Definition zb (z : Z) : bool := Z.eqb z 1.
 
 Definition dispatch (x : sx) : sx :=
   match x with
-  | SL [SS t; SZ fl; SZ uf; SZ bs; SL (SS _ :: dirs); SL (SS _ :: sets)] =>
+  | SL [SS t; SZ fl; SZ uf; SZ sd; SZ bs; SL (SS _ :: sets)] =>
       if is_tag "trace" t then
-        match names_of_sx dirs, sets_of_sx sets with
-        | Some d, Some s => SL (map (fun x => SL (map sx_ev (snd x))) (sets_trace (zb fl) (zb uf) bs d s))
-        | _, _ => sx_err "trace"
+        match sets_of_sx sets with
+        | Some s => SL (map (fun x => SL (map sx_ev (snd x))) (sets_trace false (zb fl) (zb uf) (zb sd) bs empty_state s))
+        | None => sx_err "trace"
         end
       else sx_err "op"
   | SL [SS t; SZ jr; SL (SS _ :: keys); SL (SS _ :: sets)] =>
@@ -87,10 +89,10 @@ Definition dispatch (x : sx) : sx :=
         | _, _ => sx_err "check"
         end
       else sx_err "op"
-  | SL [SS t; SZ jr; SZ fl; SZ uf; SZ bs; SL (SS _ :: keys); SL (SS _ :: sets)] =>
+  | SL [SS t; SZ jr; SZ fl; SZ uf; SZ sd; SZ bs; SL (SS _ :: keys); SL (SS _ :: sets)] =>
       if is_tag "modelcheck" t then
         match names_of_sx keys, sets_of_sx sets with
-        | Some k, Some s => sx_bool (check_crash (zb jr) k (sets_trace (zb fl) (zb uf) bs [] s))
+        | Some k, Some s => sx_bool (check_crash (zb jr) k (sets_trace (zb jr) (zb fl) (zb uf) (zb sd) bs empty_state s))
         | _, _ => sx_err "modelcheck"
         end
       else sx_err "op"
@@ -99,7 +101,7 @@ Definition dispatch (x : sx) : sx :=
         match sx_get_zs k, evs_of_sx evs with
         | Some k', Some es =>
             SL (map (fun c => match c with None => SL [sx_w "none"] | Some b => SL [sx_w "some"; sx_zs b] end)
-                    (cands_of (run (zb jr) [] es) k'))
+                    (cands_of (run (zb jr) empty_state es) k'))
         | _, _ => sx_err "cands"
         end
       else sx_err "op"
